@@ -79,6 +79,22 @@ struct State {
 }
 static mut ST: State = State { on: false, tid: 0, in_child: false, buf: std::ptr::null_mut(), faults: [None; 8], counters: [[0; NK]; 2], fake_exec: true };
 pub static mut ALLOC_WINDOW: bool = false;
+/// log a line before a waitpid blocks (pipe engine: what the parent holds while it waits)
+pub static mut VERBOSE_WAIT: bool = false;
+
+/// the log so far, without stopping (watchdog)
+pub fn peek() -> String {
+    unsafe {
+        if ST.buf.is_null() {
+            return String::new();
+        }
+        let h = header();
+        let n = h.len.load(Ordering::SeqCst) as usize;
+        let start = std::mem::size_of::<Header>();
+        let s = std::slice::from_raw_parts(ST.buf.add(start), n);
+        String::from_utf8_lossy(s).into_owned()
+    }
+}
 
 fn gettid() -> i32 {
     unsafe { libc::syscall(libc::SYS_gettid) as i32 }
@@ -604,7 +620,7 @@ pub unsafe fn trace_read(fd: c_int, buf: *mut c_void, n: usize) -> Option<isize>
     }
     let r = libc::syscall(libc::SYS_read, fd as c_long, buf, n) as isize;
     if r >= 0 {
-        log(format_args!("read {} {} -> {} {}", fd, n, r, Hex(std::slice::from_raw_parts(buf as *const u8, r as usize))));
+        log(format_args!("read {} {} -> {} {}", fd, n, r, Hex(std::slice::from_raw_parts(buf as *const u8, (r as usize).min(32)))));
     } else {
         log(format_args!("read {} {} -> E{}", fd, n, errno()));
     }
@@ -633,6 +649,9 @@ pub unsafe fn trace_waitpid(pid: libc::pid_t, status: *mut c_int, flags: c_int) 
         set_errno(e);
         log(format_args!("waitpid K{} {} -> E{}", pid, flags, e));
         return Some(-1);
+    }
+    if VERBOSE_WAIT {
+        log(format_args!("waitpid-enter K{} {}", pid, flags));
     }
     let r = libc::syscall(libc::SYS_wait4, pid as c_long, status, flags as c_long, 0 as c_long) as libc::pid_t;
     if r >= 0 {
